@@ -70,6 +70,8 @@ def expected_result(cfg, b):
         return 'g(%r,k=%r)' % b
     x, y = b
     mode = cfg.get('result', 'str')
+    if mode == 'twin':
+        return 'h(%r,%r)' % (x, y)
     if mode == 'tuple':
         return ('g', x, y)
     if mode == 'falsy' and y == 0 and x in FALSY:
@@ -272,6 +274,23 @@ class Sys(object):
         self.fn = make_function(cfg, self.log, self.ctl)
         self.cacheobj = self._make_cache(first=True)
         self.wrapper = self._decorate(self.fn, self.cacheobj)
+        self.twin = None
+        if cfg.get('twin'):
+            # a second, separately constructed decorator of the same class with the same settings on a second function
+            # (its own function object, evaluation log, default cache / own in-memory archive): nothing is shared by design
+            self.tlog = []
+            tcfg = dict(cfg, result='twin')
+            self.tfn = make_function(tcfg, self.tlog, {})
+            b = cfg['backend']
+            tcache = None if b == 'none' else {} if b == 'plaindict' else open_archive('dict', 'twin', cached=True)
+            if cfg['twin'] == 'same-decorator' and b == 'none':
+                # the very same decorator *object* applied to a second function (memo = lru_cache(...); @memo f; @memo g),
+                # no cache passed by the user
+                self.twin = self.decorator(self.tfn)
+            else:
+                keep = self.decorator
+                self.twin = self._decorate(self.tfn, tcache)
+                self.decorator = keep
         # keys of the call table: computed once per configuration (a fresh system is built for every transition);
         # C18 separately checks at every state that key() still returns them
         ck = repr(sorted(cfg.items(), key=lambda kv: kv[0]))
@@ -515,6 +534,12 @@ def apply_event(S, ev, script=(), light=False, pre=None):
                 S.ctl['raise'] = exc
                 tr.raised = exc
                 tr.ret = w(*a, **k)
+            elif kind == 'tcall':
+                a, k = S.calls[ev[1]]
+                tr.extra['twin_expected'] = expected_result(dict(S.cfg, result='twin'), S.bindings[ev[1]])
+                tr.extra['twin_evals'] = len(S.tlog)
+                tr.ret = S.twin(*a, **k)
+                tr.extra['twin_evals'] = len(S.tlog) - tr.extra['twin_evals']
             elif kind in ('callu', 'raiseu'):
                 name, val = unkeyables()[ev[1]]
                 if kind == 'raiseu':
@@ -671,7 +696,7 @@ class Result(object):
 
 def cfg_name(cfg):
     keys = ('module', 'alg', 'maxsize', 'maxsize_pos', 'purge', 'keymap', 'backend', 'init',
-            'ignore', 'tol', 'deep', 'result', 'fn', 'args', 'nargs', 'narrow')
+            'ignore', 'tol', 'deep', 'result', 'fn', 'args', 'nargs', 'narrow', 'twin')
     return ' '.join('%s=%s' % (k, cfg[k]) for k in keys if k in cfg and cfg[k] not in (None, False))
 
 
@@ -852,7 +877,9 @@ def event_enabled(cfg, ev):
         return False
     if ev[0] == 'reclone' and b.split(':')[-1] in ('sql', 'sqlmem'):
         return False
-    if len(ev) > 1 and ev[0] in ('call', 'raise', 'dumpk', 'loadk', 'lookup', 'key', 'callx'):
+    if ev[0] == 'tcall' and not cfg.get('twin'):
+        return False
+    if len(ev) > 1 and ev[0] in ('call', 'raise', 'dumpk', 'loadk', 'lookup', 'key', 'callx', 'tcall'):
         if ev[1] >= len(call_table(cfg)):
             return False
     return True
